@@ -301,6 +301,7 @@ func (fr *Frame) atCall(st *State, name string, args []Val, pos token.Pos) {
 		if top == fr {
 			// locals named in the clause mean their value here: inside a loop that is the loop-carried value
 			env.header = top.innermostLoopHeader(top.curBlock)
+			env.softHeader = true
 		}
 		for k, a := range args {
 			env.vars[fmt.Sprintf("arg%d", k)] = a
